@@ -44,6 +44,7 @@ const rule = "accepted specifications biased to what stresses rendering: literal
 
 type input struct {
 	Spec string `json:"spec"`
+	Name string `json:"name,omitempty"`
 }
 
 var literalPool = []string{`'`, `\"`, `\\`, "`", "%", "%d", "{{", "}}", "{{.X}}", `'a'`, `\\'`, "if", "else", "a", "+", "++", "/*", "*/", "//", `\\n`, "$", "#", "~"}
@@ -188,6 +189,48 @@ func checkStatic(p *prepared) error {
 		return fmt.Errorf("the emitted package does not type-check: %v\nspecification:\n%s", err, p.src)
 	}
 	return nil
+}
+
+// Package names: the emitted files carry the name of the specification (or the one set by the caller) in their
+// package clause; the result must be valid Go for every name the generator accepts, and names that are no Go
+// identifiers (or keywords, or the blank identifier) cannot yield a valid package, so they must be refused.
+func TestPackageNames(t *testing.T) {
+	rec.Begin(t)
+	rec.Rule(rule)
+	if rec.Shard() != 0 {
+		t.Skip("seed independent: shard 0 only")
+	}
+	names := []string{"pkg", "P2", "\u00fcber", "x_1", "x\u0663", "\u00e9t\u00e9", "_x", "\u03a9mega", "a\u0660\u0661", "x\u00b2", "v\u00bd", "ch\u2163", "n\u2460_1", "\u0663x", "9x", "a-b", "a b", "a\u0301", "_", "func", "fallthrough", "select", "x.y", "", "a\u200db"}
+	for _, name := range names {
+		p, ok, err := prepare("grammar placeholder;\nID = /[a-z]+/\nstart = { ID | \"if\" };\n")
+		if err != nil || !ok {
+			t.Fatalf("harness: fixed specification not accepted: %v", err)
+		}
+		p.sp.Name = name
+		usable := token.IsIdentifier(name) && name != "_"
+		rec.Case("package-name:"+name, true, "package_name", fmt.Sprintf("package_name_usable=%v", usable))
+		dir, err := os.MkdirTemp("", "c08name")
+		if err != nil {
+			t.Fatal(err)
+		}
+		var gerr error
+		if g := rec.Guard(func() { gerr = golang.Generate(ui.NewNop(), &golang.Params{Path: dir, Spec: p.sp}) }); g != nil {
+			os.RemoveAll(dir)
+			rec.Fail(t, "name", input{Spec: p.src, Name: name}, "package name %q: %v", name, g)
+			continue
+		}
+		os.RemoveAll(dir)
+		switch {
+		case usable && gerr != nil:
+			rec.Fail(t, "name", input{Spec: p.src, Name: name}, "the generator refuses the package name %q, a Go identifier: %v", name, gerr)
+		case usable && gerr == nil:
+			if err := checkStatic(p); err != nil {
+				rec.Fail(t, "name", input{Spec: p.src, Name: name}, "package name %q: %v", name, err)
+			}
+		case !usable && gerr == nil:
+			rec.Fail(t, "name", input{Spec: p.src, Name: name}, "the generator accepts the package name %q and reports success, but no Go package can have that name (every emitted file starts with 'package %s')", name, name)
+		}
+	}
 }
 
 func probes(d *auto.DFA) []rune {
